@@ -177,7 +177,7 @@ def run(ctx):
     # ---- 3. replay + validation -----------------------------------------------------------------------------------
     total = 0
     for n in sorted(sets):
-        lines = sorted(set(sets[n]), key=lambda l: (l.count(";"), l))       # shortest first
+        lines = sorted(set(sets[n]), key=lambda l: (l.count(";"), not l.startswith("own"), l))   # shortest first, parsec_data_create state first
         exs = run_harness(ctx, exe, n, lines, "all")
         if len(exs) != len(lines):
             raise tlc.TLCError("harness produced %d executions for %d behaviours (N=%d)" % (len(exs), len(lines), n))
